@@ -9,26 +9,28 @@ the index the same predication's variable": the isomorphism as ONE variable map.
 position).
 -/
 import Verif.C04.Iso6
+import Verif.C04.Iso12
 
 namespace Verif.C04
 open Verif.Sem
 
 /-
-FULL STATEMENT (not proved):  for every `m` of the property's space and every choice of scope
-labels, `∃ f, IsoVia f (strip m) (fromDmrs chosen (fromMrs m))`.
-Proved below: the fragment `NoHoleSpace` — no quantifiers and no argument constrained by a
-handle constraint (modifiers, shared labels, label-scopal arguments, unexpressed arguments,
-constants, icons, top and index are all inside).
-Missing for the rest, both forced by the code and both known:
- (a) holes: the model's specification of `from_dmrs` (`PosSpec`/`ArgOrigin`) records that every qeq
-     argument gets a fresh hole with its own handle constraint, but not yet that two different
-     (position, role) pairs get two DIFFERENT holes — needed for injectivity of the map on holes
-     (an invariant of `scStep`: the new hole's id exceeds every id handed out before);
- (b) quantifiers: `f` must send the bound variable to the intrinsic variable of the RSTR target,
-     which is right exactly when the quantifier binds the first representative of its restriction
-     (otherwise the round trip rebinds it — observation O1 of round 1).
-The per-position theorems of PropsRT.lean §3 (`roundtrip_nonscopal_args`, `roundtrip_scopal_args`,
-`roundtrip_args_backward`, `roundtrip_labels`) already cover holes and quantifiers.
+FULL STATEMENT: `roundtrip_iso` at the end of this file — for every `m` of the in-space class
+`InSpace` (Iso7.lean: the conjunction of fifteen named, decidable hypotheses, all evaluated by the
+driver on every generated case) and every choice of scope labels,
+`∃ f, IsoVia f (strip m) (fromDmrs chosen (fromMrs m))`.
+`roundtrip_iso_partial` (kept) is the earlier result on the fragment `NoHoleSpace` — no quantifiers
+and no argument constrained by a handle constraint.
+The two pieces the general theorem needed beyond the fragment:
+ (a) holes: two different (position, role) pairs get two DIFFERENT fresh holes, distinct from all
+     labels and intrinsic variables, every hole has exactly one handle constraint, every new
+     handle constraint belongs to a hole, and every quantifier gets a BODY (Holes1-4.lean:
+     invariants of `scStep`/`buildRel`, and `scRoles_nodup`: the argument links of one node have
+     different roles);
+ (b) quantifiers: `f` sends the bound variable to the intrinsic variable of the RSTR target, which
+     is right exactly under O1 = `QuantHead` ("each quantifier binds the first representative of
+     its restriction"); `roundtrip_iso_needs_O1` shows on a concrete MRS that without O1 (all other
+     fourteen hypotheses holding) no map exists: the round trip rebinds the quantifier.
 -/
 
 /-- **Isomorphism by one variable map** (fragment).  For every MRS without quantifiers and
@@ -234,5 +236,93 @@ def noHoleCheck (m : MRS) : Bool :=
   | _, _ => false
 
 example : bigDogNoQ.isWellFormed = true ∧ noHoleCheck bigDogNoQ = true := ⟨by decide, by decide⟩
+
+/-! ## The general theorem -/
+
+/-- **Isomorphism by one variable map.**  For every MRS of the in-space class `InSpace` (base ids
+distinct, roles distinct per predication, intrinsic-variable sorts, every quantifier linked to its
+restriction, scopes held together, handle sorts, top neither label nor argument, qeq only, every
+expressible argument linked, no CARG role among the arguments, one constraint per handle, no
+constrained label, each hole used once, every quantifier has a BODY hole, and O1: every quantifier
+binds the first representative of its restriction) and every choice of scope labels, the MRS that
+comes back is `strip m` with its variables renamed by ONE injective, sort-preserving map: same
+predications in the same order, labels, arguments role by role (holes and bound variables
+included), handle constraints in both directions, top and index mapped, properties of intrinsic
+variables preserved, no individual constraints. -/
+theorem roundtrip_iso (m : MRS) (reps : Reps) (d : DMRS) (sp : InSpace m reps d)
+    (chosen : List Var) (m2 : MRS) (hr : m.representatives = .ok reps)
+    (h1 : fromMrs m = .ok d) (h2 : fromDmrs chosen d = .ok m2) :
+    ∃ f : Var → Var, IsoVia f (strip m) m2 := by
+  obtain ⟨reps', topLbl, sc, lbl, leqs, idToIv, ns, scs, lo, hi, C⟩ :=
+    rtctx m sp.hN sp.hR chosen d m2 h1 h2
+  have : reps' = reps := by
+    have := C.hreps
+    rw [hr] at this
+    cases this; rfl
+  subst this
+  exact ⟨corrMapG m m2, C.isoG sp chosen h2⟩
+
+/-- the in-space class as one Boolean (what the driver evaluates per case, field by field). -/
+def inSpaceButO1 (m : MRS) (reps : Reps) (d : DMRS) : Bool :=
+  decide (BaseIdsDistinct m) && RolesOk m && IVSorts m && RstrLinked m reps && ScopesHeld m d &&
+  HandleSorts m && TopOk m && QeqOnly m && ArgsLinked m reps && NoCargRole m && OneConstraint m &&
+  NoConstrainedLabel m && HolesOnce m && QuantBody m
+
+def inSpaceCheck (m : MRS) (reps : Reps) (d : DMRS) : Bool :=
+  inSpaceButO1 m reps d && QuantHead m d
+
+theorem inSpace_of_check (m : MRS) (reps : Reps) (d : DMRS) (h : inSpaceCheck m reps d = true) :
+    InSpace m reps d := by
+  unfold inSpaceCheck inSpaceButO1 at h
+  simp only [Bool.and_eq_true, decide_eq_true_eq, and_assoc] at h
+  obtain ⟨a1, a2, a3, a4, a5, a6, a7, a8, a9, a10, a11, a12, a13, a14, a15⟩ := h
+  exact ⟨a1, a2, a3, a4, a5, a6, a7, a8, a9, a10, a11, a12, a13, a14, a15⟩
+
+/-- `InSpace` is inhabited by a structure with a quantifier, a modifier sharing a label, a
+qeq-scopal and a label-scopal argument (`bigDog` of PropsRT.lean), so `roundtrip_iso` applies. -/
+def inSpaceRun (m : MRS) (chosen : List Var) : Bool :=
+  match m.representatives, fromMrs m with
+  | .ok reps, .ok d => inSpaceCheck m reps d && (fromDmrs chosen d matches .ok _)
+  | _, _ => false
+
+example : bigDog.isWellFormed = true ∧ inSpaceRun bigDog [] = true := ⟨by decide, by decide⟩
+
+/-! ## O1 is necessary -/
+
+/-- "the cat barks", with a second noun sharing the restriction's label and standing FIRST: the
+quantifier binds `x4` (the cat), the first representative of its restriction `h5` is the dog. -/
+def rebind : MRS :=
+  { top := some ⟨"h", 0⟩, index := some ⟨"e", 2⟩,
+    rels := [ { predicate := "_the_q", label := ⟨"h", 6⟩,
+                args := [("ARG0", ⟨"x", 4⟩), ("RSTR", ⟨"h", 7⟩), ("BODY", ⟨"h", 8⟩)] },
+              { predicate := "_dog_n_1", label := ⟨"h", 5⟩, args := [("ARG0", ⟨"x", 3⟩)] },
+              { predicate := "_cat_n_1", label := ⟨"h", 5⟩, args := [("ARG0", ⟨"x", 4⟩)] },
+              { predicate := "_bark_v_1", label := ⟨"h", 1⟩,
+                args := [("ARG0", ⟨"e", 2⟩), ("ARG1", ⟨"x", 4⟩)] } ],
+    hcons := [⟨⟨"h", 0⟩, "qeq", ⟨"h", 1⟩⟩, ⟨⟨"h", 7⟩, "qeq", ⟨"h", 5⟩⟩] }
+
+def rebindReps : Reps := match rebind.representatives with | .ok r => r | _ => []
+def rebindD : DMRS := match fromMrs rebind with | .ok d => d | _ => default
+def rebindBack : MRS := match fromDmrs [] rebindD with | .ok m2 => m2 | _ => default
+
+/-- **O1 is necessary.**  `rebind` is well-formed and satisfies the other fourteen hypotheses of
+`InSpace`; only O1 (`QuantHead`) fails.  Both conversions succeed, and NO variable map makes the
+result isomorphic to `strip rebind`: in `rebind` the quantifier's ARG0 is the verb's ARG1, in the
+MRS that comes back it is not (the quantifier now binds the dog's variable: the rebinding). -/
+theorem roundtrip_iso_needs_O1 :
+    rebind.isWellFormed = true ∧ rebind.representatives = .ok rebindReps ∧
+    fromMrs rebind = .ok rebindD ∧ fromDmrs [] rebindD = .ok rebindBack ∧
+    inSpaceButO1 rebind rebindReps rebindD = true ∧ QuantHead rebind rebindD = false ∧
+    ¬ ∃ f : Var → Var, IsoVia f (strip rebind) rebindBack := by
+  have e1 : okIs rebind.representatives rebindReps = true := by decide
+  have e2 : okIs (fromMrs rebind) rebindD = true := by decide
+  have e3 : okIs (fromDmrs [] rebindD) rebindBack = true := by decide
+  refine ⟨by decide, eq_of_okIs _ _ e1, eq_of_okIs _ _ e2, eq_of_okIs _ _ e3, by decide,
+    by decide, ?_⟩
+  intro ⟨f, h⟩
+  have h1 : sharedArg (strip rebind) 0 3 "ARG0" "ARG1" = true := by decide
+  have h2 : sharedArg rebindBack 0 3 "ARG0" "ARG1" = false := by decide
+  rw [h.sharedArg 0 3 "ARG0" "ARG1" h1] at h2
+  cases h2
 
 end Verif.C04
